@@ -1813,6 +1813,13 @@ func subjectBytes(cert *Certificate) ([]byte, error) {
 // signingParamsForPublicKey returns the parameters to use for signing with
 // priv. If requestedSigAlgo is not zero then it overrides the default
 // signature algorithm.
+// signsRawTBS reports whether signatures under this algorithm identifier are made over the raw
+// to-be-signed bytes: SM2 hashes them itself (with SM3 and the signer's ZA), and checkSignature
+// verifies every SM2 algorithm that way, so no digest must be taken beforehand.
+func signsRawTBS(oid asn1.ObjectIdentifier) bool {
+	return oid.Equal(oidSignatureSM2WithSM3) || oid.Equal(oidSignatureSM2WithSHA1) || oid.Equal(oidSignatureSM2WithSHA256)
+}
+
 func signingParamsForPublicKey(pub interface{}, requestedSigAlgo SignatureAlgorithm) (hashFunc Hash, sigAlgo pkix.AlgorithmIdentifier, err error) {
 	var pubType PublicKeyAlgorithm
 
@@ -1984,10 +1991,7 @@ func (c *Certificate) CreateCRL(rand io.Reader, priv interface{}, revokedCerts [
 	}
 
 	digest := tbsCertListContents
-	switch hashFunc {
-	case SM3:
-		break
-	default:
+	if !signsRawTBS(signatureAlgorithm.Algorithm) {
 		h := hashFunc.New()
 		h.Write(tbsCertListContents)
 		digest = h.Sum(nil)
@@ -2264,10 +2268,7 @@ func CreateCertificateRequest(rand io.Reader, template *CertificateRequest, sign
 	tbsCSR.Raw = tbsCSRContents
 
 	digest := tbsCSRContents
-	switch template.SignatureAlgorithm {
-	case SM2WithSM3, SM2WithSHA1, SM2WithSHA256, UnknownSignatureAlgorithm:
-		break
-	default:
+	if !signsRawTBS(sigAlgo.Algorithm) {
 		h := hashFunc.New()
 		h.Write(tbsCSRContents)
 		digest = h.Sum(nil)
@@ -2580,10 +2581,7 @@ func CreateRevocationList(rand io.Reader, template *RevocationList, issuer *Cert
 	}
 
 	digest := tbsCertListContents
-	switch hashFunc {
-	case SM3:
-		break
-	default:
+	if !signsRawTBS(signatureAlgorithm.Algorithm) {
 		h := hashFunc.New()
 		h.Write(tbsCertListContents)
 		digest = h.Sum(nil)
